@@ -61,6 +61,7 @@ impl XmlConverter {
             let mut attrs: Option<&Vec<(Rc<str>, Rc<Val>)>> = None;
             let mut children: Option<&Vec<Rc<Val>>> = None;
             let mut text: Option<&str> = None;
+            let mut is_text_node = false;
             let mut ns: Option<(&str, &str)> = None;
             for (field, val) in fs.iter() {
                 if field.as_ref() == "name" {
@@ -100,14 +101,24 @@ impl XmlConverter {
                         children = Some(Self::get_list_val(val.as_ref())?);
                     }
                 }
-                if field.as_ref() == "text"
-                    && !val.is_empty() {
+                if field.as_ref() == "text" {
+                    is_text_node = true;
+                    if !val.is_empty() {
                         text = Some(Self::get_str_val(val.as_ref())?);
                     }
+                }
             }
             if name.is_some() && text.is_some() {
                 return Err(BuildError::new(
                     "XML nodes can not have both text and name fields",
+                    ErrorType::TypeFail,
+                )
+                .to_boxed());
+            }
+            if name.is_none() && !is_text_node {
+                // Neither an element nor a text node.
+                return Err(BuildError::new(
+                    "XML nodes must have either a name or a text field",
                     ErrorType::TypeFail,
                 )
                 .to_boxed());
@@ -177,6 +188,19 @@ impl XmlConverter {
             }
             match root {
                 Some(n) => {
+                    // A document consists of exactly one root element. A text
+                    // node can not take that place.
+                    let is_element = match n.as_ref() {
+                        Val::Tuple(fs) => fs.iter().any(|(f, _)| f.as_ref() == "name"),
+                        _ => false,
+                    };
+                    if !is_element {
+                        return Err(BuildError::new(
+                            "XML doc root must be an element: a tuple with a name field",
+                            ErrorType::TypeFail,
+                        )
+                        .to_boxed());
+                    }
                     let mut writer = EmitterConfig::new()
                         .perform_indent(true)
                         .normalize_empty_elements(false)
